@@ -17,7 +17,7 @@ import (
 // returns a value of the advertised type; index-taking operations obey the
 // negative-index / out-of-range law.
 
-var verifMemberKinds = []string{"int", "float", "bool", "str", "range", "list", "anyobj", "object", "object-with-fields-named-like-builtin-members", "option"}
+var verifMemberKinds = []string{"int", "float", "bool", "str", "range", "list", "anyobj", "object", "object-with-fields-named-like-builtin-members", "list-of-ranges", "list-of-options", "anyobj-with-a-range", "option"}
 
 type verifSubject struct {
 	typ ast.Type
@@ -63,6 +63,20 @@ func verifSubjectOf(kind string) verifSubject {
 		return verifSubject{ast.NewObjectType([]ast.ObjectTypeField{ast.NewObjectTypeField(pAst.NewSpannedIdent("a", sp), ast.NewIntType(sp), sp)}, sp),
 			*vvalue.NewValueObject(map[string]*vvalue.Value{"a": vvalue.NewValueInt(i)}),
 			*ivalue.NewValueObject(map[string]*ivalue.Value{"a": ivalue.NewValueInt(i)})}
+	case "list-of-ranges":
+		j := herrors.VerifNdInt64("subj_j")
+		return verifSubject{ast.NewListType(ast.NewRangeType(sp), sp),
+			*vvalue.NewValueList([]*vvalue.Value{vvalue.NewValueRange(*vvalue.NewValueInt(i), *vvalue.NewValueInt(j), false)}),
+			*ivalue.NewValueList([]*ivalue.Value{ivalue.NewValueRange(*ivalue.NewValueInt(i), *ivalue.NewValueInt(j), false)})}
+	case "list-of-options":
+		return verifSubject{ast.NewListType(ast.NewOptionType(ast.NewIntType(sp), sp), sp),
+			*vvalue.NewValueList([]*vvalue.Value{vvalue.NewValueOption(vvalue.NewValueInt(i)), vvalue.NewNoneOption()}),
+			*ivalue.NewValueList([]*ivalue.Value{ivalue.NewValueOption(ivalue.NewValueInt(i)), ivalue.NewNoneOption()})}
+	case "anyobj-with-a-range":
+		j := herrors.VerifNdInt64("subj_j")
+		return verifSubject{ast.NewAnyObjectType(sp),
+			*vvalue.NewValueAnyObject(map[string]*vvalue.Value{"r": vvalue.NewValueRange(*vvalue.NewValueInt(i), *vvalue.NewValueInt(j), false)}),
+			*ivalue.NewValueAnyObject(map[string]*ivalue.Value{"r": ivalue.NewValueRange(*ivalue.NewValueInt(i), *ivalue.NewValueInt(j), false)})}
 	case "object-with-fields-named-like-builtin-members":
 		// object types (annotations, casts of parsed JSON) may have fields named like the runtime's builtin object
 		// members: the analyzer offers them with the field's type
